@@ -3,18 +3,20 @@
 # Confirms a seeded change (tests still pass, demo fails with / passes without it) and runs checks against it.
 id=$1; dir=${2:-/tmp/seed_out/$id}; shift 2 2>/dev/null
 checks="${@:-$id}"
-wt=/tmp/sv_$id; out=/tmp/sv_out_$id
+tag=$(basename $dir)_$$; wt=/tmp/sv_$tag; out=/tmp/sv_out_$tag
 git -C /repo worktree remove --force $wt 2>/dev/null; rm -rf $wt $out; mkdir -p $out
 git -C /repo worktree add -q --detach $wt HEAD || exit 2
 git -C $wt apply $dir/patch.diff || { echo "PATCH DOES NOT APPLY"; git -C /repo worktree remove --force $wt; exit 2; }
+if [ -z "$SKIP_CONFIRM" ]; then
 ( cd /tmp && PYTHONPATH=/repo timeout 300 /venv/bin/python $dir/demo.py > $out/demo_clean.log 2>&1 ); d0=$?
 ( cd /tmp && PYTHONPATH=$wt timeout 300 /venv/bin/python $dir/demo.py > $out/demo_mut.log 2>&1 ); d1=$?
 ( cd $wt && PYTHONPATH=$wt /venv/bin/python -m pytest -q -p no:cacheprovider --timeout=900 --continue-on-collection-errors --junitxml=$out/junit.xml > $out/pytest.log 2>&1 )
 cmp=$(python3 /verif/tools/baseline_cmp.py $out/junit.xml | head -1)
 echo "seed=$id demo_clean_rc=$d0 demo_mutated_rc=$d1 tests: $cmp"
+fi
 for c in $checks; do
   start=$(date +%s)
   NASIM_REPO=$wt NVF_OUT=$out timeout 1800 /verif/check $c --tier ${SEED_TIER:-quick} > $out/$c.log 2>&1; rc=$?
   echo "  seed=$id check=$c rc=$rc $(( $(date +%s) - start ))s :: $(grep -m1 'bucket' $out/$c.log | cut -c1-220)"
 done
-git -C /repo worktree remove --force $wt; git -C /repo worktree prune
+git -C /repo worktree remove --force $wt; git -C /repo worktree prune; [ -n "$KEEP_OUT" ] || rm -rf $out
